@@ -141,6 +141,18 @@ def gen(rng, tier):
         add({"op": Sym("clone"), "tree": T(t), "edit": Sym(ed), "reinit": rng.random() < 0.5}, op="clone", edit=ed, root1=True)
         add({"op": Sym("subtree"), "tree": T(t), "i": rng.randrange(n_nodes(t)), "edit": Sym(ed), "reinit": rng.random() < 0.5},
             op="subtree", edit=ed, root1=True)
+        # SubTree at the single-child root itself (a tip for the code), and at single-child inner nodes
+        add({"op": Sym("subtree"), "tree": T(t), "i": 0, "edit": Sym(rng.choice(EDITS)), "reinit": rng.random() < 0.5},
+            op="subtree", edit="at-root1", root1=True)
+        ts = add_singles(g, rng, rand_tree(g, rng, tier, hi=8), rng.randint(1, 3))
+        for i, x in enumerate(preorder(ts)):
+            if i > 0 and len(x["slots"]) == 2 and len(kids(x)) == 1:
+                add({"op": Sym("subtree"), "tree": T(ts), "i": i, "edit": Sym(rng.choice(EDITS)), "reinit": rng.random() < 0.5},
+                    op="subtree", edit="at-single-inner")
+                # ... and the extracted subtree (its root has a single neighbour) re-extracted at its own root
+                sub = {"name": x["name"], "coms": x["coms"], "slots": [s0 for s0 in x["slots"] if s0 is not None]}
+                add({"op": Sym("subtree"), "tree": T(sub), "i": 0, "edit": Sym(rng.choice(EDITS)), "reinit": rng.random() < 0.5},
+                    op="subtree", edit="re-extracted-root1", root1=True)
         add({"op": Sym("rmsingle"), "tree": T(add_singles(g, rng, t, rng.randint(0, 2))), "idx": rng.random() < 0.5}, op="rmsingle", root1=True)
         gr = rand_tree(g, rng, tier, prefix="g", lo=2, hi=4)
         for tip in [t["name"], rng.choice(leaves(t))]:
